@@ -35,6 +35,10 @@ CALLS = {
 }
 
 
+# wrappers that do not change the value of an element (array construction, axis bookkeeping, the read-only flag)
+IDENTITY_CALLS = ("np.array", "_roll_axes", "np.asarray", "_read_only")
+
+
 def dotted(e: ast.AST) -> Optional[str]:
     if isinstance(e, ast.Name):
         return e.id
@@ -113,7 +117,7 @@ class Tr:
                 return "(" + CALLS[f][0] + " " + " ".join(self.ex(a) for a in e.args) + ")"
             if f in self.env and not e.keywords:       # a declared function (e.g. rotation.R3 → R3src)
                 return "(" + self.env[f] + " " + " ".join(self.ex(a) for a in e.args) + ")"
-            if f in ("np.array", "_roll_axes", "np.asarray") and len(e.args) == 1 and not e.keywords:
+            if f in IDENTITY_CALLS and len(e.args) == 1 and not e.keywords:
                 return self.ex(e.args[0])
             self.fail(e, "call")
         if isinstance(e, (ast.List, ast.Tuple)):
@@ -179,6 +183,14 @@ def straight_line(fn: ast.FunctionDef, static: Optional[Dict[str, str]] = None) 
             if isinstance(t, ast.Tuple) and isinstance(st.value, ast.Tuple) and len(t.elts) == len(st.value.elts) \
                     and all(isinstance(x, ast.Name) for x in t.elts):
                 binds += [(x.id, v) for x, v in zip(t.elts, st.value.elts)]
+                continue
+            if isinstance(t, ast.Tuple) and len(t.elts) == 2 and all(isinstance(x, ast.Name) for x in t.elts) \
+                    and isinstance(st.value, ast.Call) and dotted(st.value.func) == "np.divmod" and len(st.value.args) == 2 \
+                    and isinstance(st.value.args[1], ast.Constant) and st.value.args[1].value == 1:
+                # q, r = np.divmod(x, 1)  ≡  q = floor(x); r = x - floor(x)
+                x = st.value.args[0]
+                fl = ast.Call(func=ast.Attribute(value=ast.Name(id="np"), attr="floor"), args=[x], keywords=[])
+                binds += [(t.elts[0].id, fl), (t.elts[1].id, ast.BinOp(left=x, op=ast.Sub(), right=fl))]
                 continue
         if isinstance(st, ast.Return) and ret is None:
             ret = st.value
@@ -254,7 +266,7 @@ def translate_function(src: str, tree: ast.Module, spec: dict) -> str:
     def need(name: str, via: str):
         if name.startswith("call:"):
             f = name[5:]
-            if f in CALLS or f in env or f in ("np.array", "_roll_axes", "np.asarray"):
+            if f in CALLS or f in env or f in IDENTITY_CALLS:
                 return
             raise Untranslatable(f"{where}: call of `{f}` (in {via}) is outside the translated fragment")
         if (name in env and (name not in bound or name not in spec.get("rebind_params", ()))) or name == "np.pi":
@@ -448,6 +460,31 @@ SPECS += [
     *[dict(src=TIME, group="time", func=f"{c}._from_jds", lean=l + "FromJdsSrc",
            params={k: v for k, v in DFP.items() if k in ("jd1", "jd2", "Unit.day2second")}, outputs=["return"], type="α")
       for c, l in (("TimeDeltaJD", "deltaJd"), ("TimeDeltaDay", "deltaDay"), ("TimeDeltaSec", "deltaSec"))],
+]
+
+GPSF = {"scale != 'gps'": False, "np.any(jd1 + jd2 < cls._jd19800106)": False, "val2 is not None": False, "isinstance(val, cls.WeekSec)": False,
+        "val2 is None and val.size == 0": False, "val2 is None and val.size > 0": False, "val2 is None": False}
+SPECS += [
+    # --- _time.py, the numeric time formats (C02): value(s) → (jd1, jd2) and back; jd_int / jd_frac
+    dict(src=TIME, group="time", func="TimeJD._to_jds", lean="jdToJdsSrc", static=GPSF, params={"val": "v", "val2": "v2"}, rebind_params=("val",), outputs=["return"], type="α × α"),
+    dict(src=TIME, group="time", func="TimeJD._from_jds", lean="jdFromJdsSrc", params={"jd1": "jd1", "jd2": "jd2"}, outputs=["return"], type="α"),
+    dict(src=TIME, group="time", func="TimeMJD._to_jds", lean="mjdToJdsSrc", static=GPSF, params={"val": "v", "val2": "v2", "cls._mjd0": "mjd0"}, rebind_params=("val",), outputs=["return"], type="α × α"),
+    dict(src=TIME, group="time", func="TimeMJD._from_jds", lean="mjdFromJdsSrc", params={"jd1": "jd1", "jd2": "jd2", "cls._mjd0": "mjd0"}, outputs=["return"], type="α"),
+    dict(src=TIME, group="time", func="TimeGPSWeekSec._to_jds", lean="wsToJdsSrc", static=GPSF,
+         params={"val": "week0", "val2": "sec0", "cls.day2seconds": "d2s", "Unit.week2days": "w2d", "cls._jd19800106": "jdGps0"}, outputs=["return"], type="α × α"),
+    dict(src=TIME, group="time", func="TimeGPSWeekSec._from_jds", lean="wsFromJdsSrc", static=GPSF,
+         params={"jd1": "jd1", "jd2": "jd2", "cls.day2seconds": "d2s", "cls.week2days": "w2d", "cls._jd19800106": "jdGps0"}, outputs=["wwww", "gpssec", "wd"], type="α × α × α"),
+    dict(src=TIME, group="time", func="TimeGPSSec._to_jds", lean="gsToJdsSrc", static=GPSF,
+         params={"val": "v", "Unit.second2day": "s2d", "cls._jd19800106": "jdGps0"}, outputs=["return"], type="α × α"),
+    dict(src=TIME, group="time", func="TimeGPSSec._from_jds", lean="gsFromJdsSrc", static=GPSF,
+         params={"jd1": "jd1", "jd2": "jd2", "Unit.day2second": "d2s", "cls._jd19800106": "jdGps0"}, outputs=["return"], type="α"),
+    dict(src=TIME, group="time", func="TimeJulianYear._to_jds", lean="jyToJdsSrc", static=GPSF,
+         params={"val": "v", "cls._j2000": "j2000", "cls._jd2000": "jd2000", "Unit.julian_year2day": "jy2d"}, outputs=["return"], type="α × α"),
+    dict(src=TIME, group="time", func="TimeJulianYear._from_jds", lean="jyFromJdsSrc",
+         params={"jd1": "jd1", "jd2": "jd2", "cls._j2000": "j2000", "cls._jd2000": "jd2000", "Unit.day2julian_year": "d2jy"}, outputs=["return"], type="α"),
+    dict(src=TIME, group="time", func="TimeArray._jd_delta", lean="jdDeltaSrc", params={"self.jd1": "jd1", "self.jd2": "jd2"}, outputs=["return"], type="α"),
+    dict(src=TIME, group="time", func="TimeArray.jd_int", lean="jdIntSrc", params={"self.jd1": "jd1", "self._jd_delta": "delta"}, outputs=["return"], type="α"),
+    dict(src=TIME, group="time", func="TimeArray.jd_frac", lean="jdFracSrc", params={"self.jd2": "jd2", "self._jd_delta": "delta"}, outputs=["return"], type="α"),
 ]
 
 HEADERS = {
